@@ -182,7 +182,7 @@ impl Prop for C12 {
                "assumptions": ["every font page referenced by a cell has a font in the table and cells use glyphs 0..=255 (as the statement quantifies)"]})
     }
     fn total(&mut self, ctx: &Ctx) -> u64 {
-        ctx.tier.pick(4_000, 200_000)
+        ctx.tier.pick(40_000, 200_000)
     }
     fn run_case(&mut self, ctx: &mut Ctx, k: u64) {
         let mut rng = ctx.rng(k);
